@@ -76,7 +76,14 @@ def value_bytes(m, c):
     fam, n = m["fam"], m["n"]
     if fam == "vstore": return struct.pack("<QQ", c["x"], c["y"])
     if fam == "store_lane": return struct.pack("<QQ", c["x"], c["y"])[m.get("lane", 0) * n:(m.get("lane", 0) + 1) * n]
+    if m.get("vc") is not None: return struct.pack("<Q", m["vc"])[:n]
     return struct.pack("<Q", c["x"])[:n]
+
+
+def alu(op, n, o, v):
+    mod = 1 << (8 * n)
+    v %= mod
+    return {"add": (o + v) % mod, "sub": (o - v) % mod, "and": o & v, "or": o | v, "xor": o ^ v, "xchg": v}[op]
 
 
 def type_mask(m): return M32 if m.get("hole") == "i32" else M64
@@ -155,14 +162,11 @@ def expect(p, f, c, seg):
         ea2 = src_val(m["d"], c) + m.get("doff", 0)
         out["ea2"] = ea2
         if ea2 + n > size: out["trap"] = "oob"; return out
-        out["writes"].append((ea2, old))
+        out["writes"].append((ea2, alu(m["rmw"], n, le(old), c["x"]).to_bytes(n, "little") if m.get("rmw") else old))
     elif fam == "atomic_load":
         out["main"] = slots_of(shape_bytes(m["shape"], old, c))
     elif fam == "rmw":
-        mod = 1 << (8 * n)
-        o, v = le(old), (c["x"] & type_mask(m)) % mod
-        new = {"add": (o + v) % mod, "sub": (o - v) % mod, "and": o & v, "or": o | v, "xor": o ^ v, "xchg": v}[m["rmw"]]
-        out["writes"].append((ea, new.to_bytes(n, "little")))
+        out["writes"].append((ea, alu(m["rmw"], n, le(old), c["x"] & type_mask(m)).to_bytes(n, "little")))
         out["main"] = slots_of(shape_bytes(m["shape"], old, c))
     elif fam == "cmpxchg":
         mod = 1 << (8 * n)
@@ -219,7 +223,7 @@ def oracle(p, f, c, seg):
     allowed = {}
     for ea, bs in e["writes"]:
         for i, b in enumerate(bs): allowed[ea + i] = b
-    if e["unknown"]:
+    if e["unknown"] or c.get("difftrunc"):
         lo_hi = [(e["ea"], e["ea"] + (e.get("n") or 0))] + [(a, a + len(b)) for a, b in e["writes"]]
         if e.get("ea2") is not None: lo_hi.append((e["ea2"], e["ea2"] + (e.get("n") or 0)))
         bad = [i for i in got if not any(l <= i < h for l, h in lo_hi)]
@@ -261,7 +265,7 @@ RMW = {"add": "RAdd", "sub": "RSub", "and": "RAnd", "or": "ROr", "xor": "RXor", 
 
 def coq_case(p, f, c, seg):
     """the call as a gcase of Engine/Access.v; None when it cannot be expressed (no window)"""
-    if c.get("big"): return None
+    if c.get("big") or c.get("difftrunc") or sum(len(h) for _, h in c.get("diff") or []) > 8192 or len(c["win"]) > 8192: return None
     w = Win(c)
     ops = []
     if f.get("pre"):
@@ -289,7 +293,11 @@ def coq_case(p, f, c, seg):
         elif fam == "load_store":
             old = w.get(ea, n) or bytes(n)
             ops.append('OAcc (ALoad %s %d) (SConst [])' % (zi(ea), n))
-            ops.append("OAcc (AStore %s %s) SRaw" % (zi(src_val(m["d"], c) + m.get("doff", 0)), hx(old)))
+            if m.get("rmw"):   # the value stored: the model's own arithmetic on the bytes it reads
+                val = "(le_bytes %d (rmw_new %s %d (le_val %s) %s))" % (n, RMW[m["rmw"]], n, hx(old), zi(c["x"]))
+            else:
+                val = hx(old)
+            ops.append("OAcc (AStore %s %s) SRaw" % (zi(src_val(m["d"], c) + m.get("doff", 0)), val))
         elif fam == "atomic_load":
             ops.append("OAcc (AAtomLoad %s %d) %s" % (zi(ea), n, coq_shape(m["shape"], c)))
         elif fam == "atomic_store":
